@@ -90,10 +90,14 @@ def reference_parse(text):
     return out
 
 
-def fortran_text(data, sep=""):
-    """Hand-built text the way a Fortran code writes it (5e16.9, numbers may abut)."""
+def fortran_text(data, sep="", filled=False):
+    """Hand-built text the way a Fortran code writes it (5e16.9, numbers may abut).
+    filled=True: every 16-character field is completely used (d.ddddddddddE+dd for non-negative
+    numbers), so that a number is followed directly by the first DIGIT of the next one."""
 
     def e16(x):
+        if filled and x >= 0:
+            return "%16.10E" % x
         return "%16.9E" % x
 
     lines = ["%-48s%4d%4d%4d" % ("  EFITD    01/01/2001    #000001  1000ms", 3, data["nx"], data["ny"])]
@@ -207,10 +211,10 @@ def main():
             full = dict(data)
             full.setdefault("ffprime", np.zeros(nx))
             full.setdefault("pprime", np.zeros(nx))
-            for sep, nm in (("", "abutting"), (" ", "spaced")):
+            for sep, nm in (("", "abutting"), (" ", "spaced"), ("", "abutting, fields completely filled")):
                 # Fortran e16.9 leaves a leading blank for non-negative numbers only when the
                 # field is wider than the number: 16 wide, 15/16 characters used
-                txt = fortran_text(full, sep)
+                txt = fortran_text(full, sep, filled=nm.endswith("filled"))
                 try:
                     b2 = _geqdsk.read(io.StringIO(txt))
                     e = max(close10(b2[k], full[k]) for k in ("fpol", "pres", "ffprime", "pprime", "qpsi", "psi"))
